@@ -5,19 +5,20 @@
 set -u
 export VERIF_SKIP_EVIDENCE=1
 cd /verif
+R=${THEO_REPO:-/repo}     # a clone of /repo may be given
 seeds=("$@"); [ ${#seeds[@]} -eq 0 ] && seeds=($(ls seeded))
 for sid in "${seeds[@]}"; do
   d=/verif/seeded/$sid
   pid=${sid%%_*}
-  git -C /repo diff --quiet || { echo "repo dirty before $sid"; exit 2; }
-  git -C /repo apply "$d/patch.diff" || { echo "$sid: patch does not apply"; continue; }
+  git -C "$R" diff --quiet || { echo "repo dirty before $sid"; exit 2; }
+  git -C "$R" apply "$d/patch.diff" || { echo "$sid: patch does not apply"; continue; }
   s=$(date +%s)
   out=$(timeout 3000 ./check $pid --tier quick 2>&1 | grep -E "^VIOLATION|Traceback" | head -1)
-  git -C /repo checkout -- .
+  git -C "$R" checkout -- .
   caught=0; [[ "$out" == VIOLATION* && "$out" != *no-failing-input-found ]] && caught=1
   [[ "$out" == VIOLATION*no-failing-input-found ]] && caught=2
   echo "$sid caught=$caught $(( $(date +%s)-s ))s :: $out"
   echo "{\"seed\": \"$sid\", \"property\": \"$pid\", \"caught\": $caught, \"line\": \"$(echo $out | sed 's/"/\\"/g')\"}" > $d/recheck.json
 done
-python3 /verif/tools/translate.py >/dev/null
-git -C /repo status --short | grep -v _build
+[ "$R" = /repo ] && python3 /verif/tools/translate.py >/dev/null
+git -C "$R" status --short | grep -v _build
